@@ -11,7 +11,8 @@
 (***************************************************************************)
 EXTENDS Integers, Sequences, TLC, Json
 
-CONSTANTS SweepStopsWriter,   \* FALSE: as coded (ReleaseIfStale on a lock that is not stale does nothing, whoever calls it)
+CONSTANTS ListFailureUsesDirAge,   \* FALSE: as coded (an observer that cannot list the lock directory cannot tell: not stale)
+          SweepStopsWriter,   \* FALSE: as coded (ReleaseIfStale on a lock that is not stale does nothing, whoever calls it)
           StopOnWriteError,   \* FALSE: as coded (a failed write is skipped, the time stamp is still refreshed, the writer goes on)
           MaxFaults,          \* transient failures of the heartbeat write
           P,        \* heartbeat period in ticks
@@ -78,7 +79,15 @@ Die == /\ hpc \in {"made", "holding"}
 Observe == /\ reported' = (IF LooksStale THEN "stale" ELSE "fresh")
            /\ UNCHANGED <<now, dirAt, hbAt, hpc, nextBeat, diedAt, deathPoint, faults, writerOn>>
 
-Next == Tick \/ Mkdir \/ Confirm \/ Beat \/ BeatFails \/ SelfSweep \/ Die \/ Observe
+\* an observer whose listing of the lock directory fails (a transient I/O error, no file descriptor left) while the directory
+\* itself can still be examined: as coded it cannot tell and answers "not stale"; ListFailureUsesDirAge: it falls back on the
+\* age of the directory, which is only stamped at the acquisition
+ObserveListingFails ==
+    /\ dirAt >= 0
+    /\ reported' = (IF ListFailureUsesDirAge /\ now - dirAt > 2 * P THEN "stale" ELSE "fresh")
+    /\ UNCHANGED <<now, dirAt, hbAt, hpc, nextBeat, diedAt, deathPoint, faults, writerOn>>
+
+Next == ObserveListingFails \/ Tick \/ Mkdir \/ Confirm \/ Beat \/ BeatFails \/ SelfSweep \/ Die \/ Observe
 Spec == Init /\ [][Next]_vars
 
 \* sign of life as the statement means it
@@ -87,6 +96,8 @@ LastSign == Stamp
 StaleOnlyIfSilent == (reported = "stale" /\ dirAt >= 0) => TRUE   \* holds by construction of Observe; kept for the trace specification
 \* a live holder (not dead) is never seen stale, provided the writer is less than a period late
 LiveNeverStale == (hpc \in {"made", "holding"}) => ~LooksStale
+\* ... and never REPORTED stale either, whatever the observer could or could not read
+LiveNeverReportedStale == (hpc \in {"made", "holding"} /\ writerOn) => reported # "stale"
 \* a dead holder's lock looks stale at the latest 2P+1 ticks after its last sign of life, i.e. at most 2P+J+1 after death
 DeadBecomesStale == (hpc = "dead" /\ now - diedAt > 2 * P + J) => LooksStale
 
